@@ -300,7 +300,7 @@ class Gen:
         if scope.get("loops", 0) > 0 and (P.get("collide") or not in_fill):
             # (`forloop` collides by nature with every other loop; inside fill content that meets open finding F15, so it
             # is echoed there only in collision mode, where C03's diagnosis can tell F15 from a new defect)
-            kinds.append(("forloop", 2))
+            kinds.append(("forloop", 3))
         k = kinds[ch.weighted([w for _, w in kinds], "kind")][0]
         if k == "text":
             return ["text", self.tok()]
@@ -311,7 +311,7 @@ class Gen:
             return ["var", name]
         if k == "forloop":
             depth_ = scope["loops"]
-            up = ch.draw(min(depth_, 3), "forloop_up")
+            up = ch.weighted([1, 2, 1][:min(depth_, 3)], "forloop_up")  # with nested loops prefer forloop.parentloop.*
             return ["forloop", up, ["counter", "counter0", "first", "last"][ch.draw(4, "forloop_attr")]]
         if k == "cvar":
             return ["var", ch.choice(POOL, "cvar")]
